@@ -5,6 +5,7 @@ import (
 	"fmt"
 	"os"
 	"path/filepath"
+	"regexp"
 	"strings"
 
 	simrt "verif.local/simrt"
@@ -18,6 +19,7 @@ type c01 struct {
 	sweepTargets                 []sweepTarget
 	recoverSites                 map[int]string
 	env                          Env
+	lastDisk                     *simrt.Disk
 	st                           c01stats
 }
 
@@ -111,6 +113,7 @@ func (c *c01) Stats() map[string]any {
 		}
 	}
 	return map[string]any{
+		"line_noise_docs": genStats.Noise, "include_chains": genStats.Chains, "max_include_chain": genStats.MaxChain, "empty_run_includes": genStats.EmptyIncludes,
 		"executions": c.st.Exec, "fault_free_runs": c.st.FaultFree, "fault_runs": c.st.FaultRuns, "accepted": c.st.Accepted,
 		"rejected": c.st.Rejected, "newjapi_errors": c.st.NewErrs, "faults_fired": fired, "probe_toctou_split": c.st.Toctou,
 		"probe_reread_changed": c.st.Reread, "probe_fault_at_depth_ge2": c.st.DepthGE2, "probe_soft_budget_hit": c.st.SoftHit,
@@ -177,6 +180,10 @@ func (c *c01) DumpCase(seed uint64, idx int) []Case {
 			pi = r.n(len(cp.roots))
 		}
 		base.Project = *corpusProject(pi)
+		if idx >= len(cp.roots) && r.chance(350) {
+			base.Project = lineNoise(&base.Project, r)
+			base.Kind = "corpus-noise"
+		}
 		base.Extra = map[string]any{"nfaults": faultCount(r, idx < len(cp.roots)), "fseed": r.n(1 << 30)}
 		return []Case{base}
 	case idx < c.nCorpus+c.nGen:
@@ -206,12 +213,20 @@ func (c *c01) DumpCase(seed uint64, idx int) []Case {
 		case 3:
 			cfg.BadTypes, cfg.BadEnums = r.n(3), r.n(3)
 		}
+		if idx == c.nCorpus || (cfg.MacroLadder > 0 && r.chance(3)) {
+			// the ladder pasted from its top: k small macros, 2^k directives
+			cfg.MacroLadder = 20 + r.n(10)
+			cfg.LadderTop = true
+		}
 		d := generateDoc(r, cfg)
 		single, multi, _ := cutProject(d, r, "/sim/proj/api", 4)
 		if r.chance(300) {
 			base.Project = single
 		} else {
 			base.Project = multi
+		}
+		if r.chance(350) {
+			base.Project = lineNoise(&base.Project, r)
 		}
 		base.Extra = map[string]any{"nfaults": faultCount(r, r.chance(200)), "fseed": r.n(1 << 30), "mutual": cfg.MutualMacros}
 		respellRoot(&base.Project, r)
@@ -417,6 +432,7 @@ func clampInt(v, lo, hi int) int {
 func (c *c01) exec(p *Project, o Opts, plan []simrt.PlannedFault, seed uint64) (Result, *simrt.Disk) {
 	c.st.Exec++
 	r, d, _ := execute(p, o, c.env, plan, seed, nil)
+	c.lastDisk = d
 	for k, n := range d.Fired {
 		c.st.Fired[k] += n
 	}
@@ -462,7 +478,37 @@ func (c *c01) judge(cs *Case, r *Result, plan []simrt.PlannedFault) *Case {
 			return mk("hang", r.PanicSig, "the execution wants a lock that nobody will ever release (leaked by an earlier execution of this process, or held by itself): stage "+r.Stage)
 		}
 		if r.PanicKind == "budget" {
-			return mk("nontermination", r.PanicSig, fmt.Sprintf("hard step budget reached in stage %s after %d steps, %d fs calls", r.Stage, r.Ticks, r.FSCalls))
+			sig := r.PanicSig
+			detail := fmt.Sprintf("hard step budget reached in stage %s after %d steps, %d fs calls", r.Stage, r.Ticks, r.FSCalls)
+			if c.lastDisk != nil {
+				texts := []string{string(lastRootContent)}
+				lr := c.lastDisk.LastRead()
+				for _, k := range sortedKeys(lr) {
+					texts = append(texts, lr[k])
+				}
+				nMacros := 0
+				for _, t := range texts {
+					nMacros += strings.Count(t, "MACRO")
+				}
+				if os.Getenv("SIM_DEBUG_BUDGET") != "" {
+					fmt.Fprintf(os.Stderr, "budget: pasteDepth=%d macros=%d texts=%d\n", lastPasteDepth, nMacros, len(texts))
+				}
+				// Two independent signs of the listed finding (an acyclic paste graph of k macros that
+				// expands to about 2^k directives): the budget ran out inside PASTE expansion nested no
+				// deeper than the project has macros (a cycle would be nested without bound), or the
+				// texts as delivered describe an acyclic paste graph with a huge expansion (the budget
+				// then often runs out later, while the expanded list is processed).
+				n, acyclic := pasteExpansion(texts)
+				inExpansion := lastPasteDepth >= 1 && lastPasteDepth <= nMacros
+				if inExpansion || (acyclic && n > 100000) {
+					sig += "@paste-expansion"
+					detail += fmt.Sprintf("; PASTE expansion: %d levels deep on the stack when the budget ran out, %d MACRO directives in the project", lastPasteDepth, nMacros)
+					if acyclic && n > 0 {
+						detail += fmt.Sprintf(", acyclic paste graph, full expansion about %.3g directives", n)
+					}
+				}
+			}
+			return mk("nontermination", sig, detail)
 		}
 		return mk("crash", r.PanicSig, "stage="+r.Stage+" panic="+r.Panic)
 	}
@@ -654,4 +700,93 @@ func (c *c01) check(cs *Case, record bool) *Case {
 		return v
 	}
 	return nil
+}
+
+// ------------------------------------------------------------------ paste expansion size
+
+var (
+	reMacroLine = regexp.MustCompile(`^[ \t]*MACRO[ \t]+(@[A-Za-z0-9_]+)`)
+	rePasteLine = regexp.MustCompile(`^[ \t]*PASTE[ \t]+(@[A-Za-z0-9_]+)`)
+)
+
+// pasteExpansion reads the texts that the library was given (root and included files as delivered)
+// line by line and returns how many directives the full expansion of all PASTE directives outside
+// macro bodies produces, and whether the paste graph is acyclic. It is used for one thing only: to
+// tell the listed finding "an acyclic paste graph of k small macros expands to 2^k directives" from
+// any other way of not terminating.
+func pasteExpansion(texts []string) (size float64, acyclic bool) {
+	type macro struct {
+		own    float64
+		pastes []string
+	}
+	macros := map[string]*macro{}
+	var top []string
+	for _, txt := range texts {
+		txt = strings.ReplaceAll(strings.ReplaceAll(txt, "\r\n", "\n"), "\r", "\n")
+		var cur *macro
+		depth := 0
+		for _, ln := range strings.Split(txt, "\n") {
+			t := strings.TrimSpace(ln)
+			if i := strings.Index(t, " //"); i >= 0 {
+				t = strings.TrimSpace(t[:i])
+			}
+			switch {
+			case t == "" || strings.HasPrefix(t, "#"):
+			case reMacroLine.MatchString(ln): // also inside an unclosed body: the text may be damaged
+				cur = &macro{}
+				macros[reMacroLine.FindStringSubmatch(ln)[1]] = cur
+				depth = 0
+			case cur != nil && t == "(":
+				depth++
+			case cur != nil && t == ")":
+				depth--
+				if depth <= 0 {
+					cur = nil
+				}
+			case rePasteLine.MatchString(ln):
+				n := rePasteLine.FindStringSubmatch(ln)[1]
+				if cur != nil {
+					cur.pastes = append(cur.pastes, n)
+				} else {
+					top = append(top, n)
+				}
+			default:
+				if cur != nil {
+					cur.own++
+				}
+			}
+		}
+	}
+	state := map[string]int{} // 1 on the path, 2 done
+	memo := map[string]float64{}
+	acyclic = true
+	var sz func(n string) float64
+	sz = func(n string) float64 {
+		m := macros[n]
+		if m == nil {
+			return 0
+		}
+		switch state[n] {
+		case 1:
+			acyclic = false
+			return 0
+		case 2:
+			return memo[n]
+		}
+		state[n] = 1
+		s := m.own
+		for _, p := range m.pastes {
+			s += sz(p)
+		}
+		state[n] = 2
+		memo[n] = s
+		return s
+	}
+	for n := range macros {
+		sz(n) // cycles anywhere in the graph, pasted or not
+	}
+	for _, n := range top {
+		size += sz(n)
+	}
+	return size, acyclic
 }
